@@ -63,7 +63,10 @@ func (c Config) Options(dir string) *NoKV.Options {
 	o.ValueLogBucketCount = c.Buckets
 	o.ValueLogHotBucketCount = 0
 	if c.Buckets > 1 && c.HotRing {
+		// hot/cold value-log routing: a key moves from a cold bucket to the hot
+		// bucket after its third write, so overwrites cross buckets within a case
 		o.ValueLogHotBucketCount = 1
+		o.ValueLogHotKeyThreshold = 3
 	}
 	o.HotRingEnabled = c.HotRing
 	o.WriteHotKeyLimit = 0
